@@ -139,7 +139,7 @@ def gen_chain(g, n_target=None, force_worm=None, self_locking=None,
         beta = None
         if kind == 'HelicalGear':
             beta_si = r.uniform(3, 45) * pi / 180
-            bu = g.unit('Angle')
+            beta_q = g.q('Angle', beta_si)
         out = []
         sub = None
         for _ in range(2):
@@ -149,8 +149,9 @@ def gen_chain(g, n_target=None, force_worm=None, self_locking=None,
                  'b': g.q('Length', r.uniform(2e-3, 40e-3)) if 'b' in sub else None,
                  'E': g.q('Stress', g.logu(1e9, 2.1e11)) if 'E' in sub else None}
             if kind == 'HelicalGear':
-                e['beta'] = g.q('Angle', beta_si,
-                                bu if g.chance(0.7) else None)
+                # mated helical gears share one literal: gearpy compares
+                # the two angles with an absolute band in the left unit
+                e['beta'] = list(beta_q)
             out.append(e)
         return out
 
